@@ -3,8 +3,9 @@
      LIT / RE as in drv_search.ml;  NSTR = ((i<oid> s<str(container)>) ...)
    Output: (ok (ITEM ...)) | (ok true|false) for exists | (raise ..) | (mutates) | (outoffuel)
      ITEM   = (nc NODE PARENT REF s<path text> PSEGS ((PARENT REF) ...)) | NODE
-     NODE   = (n i<oid>) | (l NODE ...) | ITEM
-     PARENT = none | (n i<oid>) | (l)
+     NODE   = (n i<oid>) | (l NODE ...) | (m (KEY NODE) ...) | ITEM
+              (m ...) = a hash the evaluator built itself: the reduced shallow copy of collector subtraction
+     PARENT = none | (n i<oid>) | (l) | (m)
      PSEGS  = the model's escaped parse of the path text (as drv_path prints it) *)
 open Model
 open Sexp
@@ -50,6 +51,7 @@ let oid_atom (n : node) = A ("i" ^ string_of_int (int_of_n (node_oid n)))
 
 let parent_sexp = function
   | None -> A "none"
+  | Some (RNode n) when is_copy n -> L [A "m"]
   | Some (RNode n) -> L [A "n"; oid_atom n]
   | Some (RList _) -> L [A "l"]
   | Some (RCoords _) -> L [A "c"]
@@ -83,6 +85,8 @@ let name_like (nd : rval) (rf : pyval option) : bool =
 
 let rec item_sexp (v : rval) : t =
   match v with
+  | RNode (NMap (_, kvs) as n) when is_copy n ->
+    L (A "m" :: List.map (fun (k, x) -> L [sexp_of_pyval (key_val k); item_sexp (RNode x)]) kvs)
   | RNode n -> L [A "n"; oid_atom n]
   | RList l -> L (A "l" :: List.map item_sexp l)
   | RCoords (nd, par, rf, path, anc) ->
@@ -93,15 +97,26 @@ and node_or_name_sexp (nd : rval) (rf : pyval option) : t =
   if name_like nd rf then (match nd with RNode (NLeaf (_, v)) -> L [A "v"; sexp_of_pyval v] | _ -> item_sexp nd)
   else item_sexp nd
 
+(* NSTR also carries repr() of every scalar object of the document, so that str() of a hash the evaluator
+   built itself (the reduced copy of collector subtraction: ruamel's ordereddict prints
+   "ordereddict({KEY: VALUE, ...})" with the repr() of its keys and values) can be computed here *)
 let nstr_of_table (tbl : t) : node -> char list =
   let h = Hashtbl.create 16 in
   (match tbl with
    | L items -> List.iter (function L [o; v] -> Hashtbl.replace h (int_atom o) (str_atom v)
                                   | y -> failwith ("bad nstr entry " ^ to_string y)) items
    | x -> failwith ("bad nstr table " ^ to_string x));
-  fun n -> match Hashtbl.find_opt h (int_of_n (node_oid n)) with
+  let rec str_of n =
+    match Hashtbl.find_opt h (int_of_n (node_oid n)) with
     | Some v -> v
-    | None -> failwith "nstr-miss"
+    | None ->
+      (match n with
+       | NMap (_, kvs) when is_copy n ->
+         let pair (k, x) = implode (str_of k) ^ ": " ^ implode (str_of x) in
+         if kvs = [] then explode "ordereddict()"
+         else explode ("ordereddict({" ^ String.concat ", " (List.map pair kvs) ^ "})")
+       | _ -> failwith "nstr-miss")
+  in str_of
 
 let vstr (_ : rval list) : char list = failwith "vstr-needed"
 (* keyword segments: Keywords.v joined through EvalKw.v *)
